@@ -567,9 +567,36 @@ func runTblCase(r *rng, family string, nr, nc int, fixed ...tblOp) (c tblCase, c
 				}
 			}
 		default: // hostile: anything on anything
-			if r.chance(45) {
+			hk := r.pick([]int{35, 17, 13, 35})
+			var starts [][2]int
+			for rr, row := range before.Rows {
+				for cc, cell := range row {
+					if cell.Span > 1 || cell.VM == "restart" {
+						starts = append(starts, [2]int{rr, cc})
+					}
+				}
+			}
+			if hk == 1 {
+				// a horizontal merge that fits the row it is applied to (so that several rows carry merges at once)
+				ri := r.intn(cnr)
+				if n := len(before.Rows[ri]); n >= 2 {
+					a := r.intn(n - 1)
+					o = tblOp{Kind: "MergeH", A: []int{ri, a, a + 1 + r.intn(n-a-1)}}
+				} else {
+					hk = 0
+				}
+			}
+			if hk == 2 {
+				if len(starts) > 0 {
+					st := starts[r.intn(len(starts))]
+					o = tblOp{Kind: "Unmerge", A: []int{st[0], st[1]}}
+				} else {
+					hk = 0
+				}
+			}
+			if hk == 0 {
 				o = genPlainOp(r, cnr, cnc, &atom)
-			} else {
+			} else if hk == 3 {
 				switch r.intn(4) {
 				case 0:
 					o = tblOp{Kind: "MergeH", A: []int{r.rangeI(-1, cnr), r.rangeI(-1, cnc), r.rangeI(-1, cnc+1)}}
